@@ -25,11 +25,34 @@ pub mod log {
         #[verifier::external_body] fn le(&self, o: &Level) -> (r: bool) ensures r == (frank(*self) <= lrank(*o)) { unimplemented!() }
         #[verifier::external_body] fn lt(&self, o: &Level) -> (r: bool) ensures r == (frank(*self) < lrank(*o)) { unimplemented!() }
     }
+    // same-type comparisons (derived Ord in the real crate: declaration order = rank)
+    impl PartialOrd for LevelFilter {
+        #[verifier::external_body] fn partial_cmp(&self, o: &LevelFilter) -> Option<std::cmp::Ordering> { unimplemented!() }
+        #[verifier::external_body] fn gt(&self, o: &LevelFilter) -> (r: bool) ensures r == (frank(*self) > frank(*o)) { unimplemented!() }
+        #[verifier::external_body] fn ge(&self, o: &LevelFilter) -> (r: bool) ensures r == (frank(*self) >= frank(*o)) { unimplemented!() }
+        #[verifier::external_body] fn lt(&self, o: &LevelFilter) -> (r: bool) ensures r == (frank(*self) < frank(*o)) { unimplemented!() }
+        #[verifier::external_body] fn le(&self, o: &LevelFilter) -> (r: bool) ensures r == (frank(*self) <= frank(*o)) { unimplemented!() }
+    }
+    impl PartialOrd for Level {
+        #[verifier::external_body] fn partial_cmp(&self, o: &Level) -> Option<std::cmp::Ordering> { unimplemented!() }
+        #[verifier::external_body] fn gt(&self, o: &Level) -> (r: bool) ensures r == (lrank(*self) > lrank(*o)) { unimplemented!() }
+        #[verifier::external_body] fn ge(&self, o: &Level) -> (r: bool) ensures r == (lrank(*self) >= lrank(*o)) { unimplemented!() }
+        #[verifier::external_body] fn lt(&self, o: &Level) -> (r: bool) ensures r == (lrank(*self) < lrank(*o)) { unimplemented!() }
+        #[verifier::external_body] fn le(&self, o: &Level) -> (r: bool) ensures r == (lrank(*self) <= lrank(*o)) { unimplemented!() }
+    }
     #[verifier::external_body]
     pub struct Record<'a> { _p: std::marker::PhantomData<&'a ()> }
     pub uninterp spec fn record_level(r: &Record) -> Level;
     impl<'a> Record<'a> {
         #[verifier::external_body] pub fn level(&self) -> (r: Level) ensures r == record_level(self) { unimplemented!() }
+    }
+    #[verifier::external_body]
+    pub struct Metadata<'a> { _p: std::marker::PhantomData<&'a ()> }
+    pub uninterp spec fn metadata_level(m: &Metadata) -> Level;
+    pub uninterp spec fn metadata_target<'a>(m: &Metadata<'a>) -> &'a str;
+    impl<'a> Metadata<'a> {
+        #[verifier::external_body] pub fn level(&self) -> (r: Level) ensures r == metadata_level(self) { unimplemented!() }
+        #[verifier::external_body] pub fn target(&self) -> (r: &'a str) ensures r == metadata_target(self) { unimplemented!() }
     }
     // ---- the facade's global state, as far as C02 needs it ----
     // "level l has been installed as the global maximum (during the current call)"
